@@ -11,7 +11,8 @@ partial def loop (h : IO.FS.Stream) (out : IO.FS.Stream) : IO Unit := do
   if line.isEmpty then return ()
   let toks := (String.ofList (line.toList.reverse.dropWhile (fun c => c = '\n' || c = '\r')).reverse).splitOn " "
   let ans ← dispatch toks
-  out.putStrLn ans
+  -- one answer line per request, whatever bytes a damaged image put into a message
+  out.putStrLn (String.ofList (ans.toList.map fun c => if c = '\n' || c = '\r' then ' ' else c))
   loop h out
 
 def main : IO Unit := do
